@@ -25,6 +25,8 @@ demo >/tmp/confirm_clean_$$.log 2>&1; CLEAN=$?
 git apply --check "$D/patch.diff" 2>/dev/null || { echo "CONFIRM $(basename $D): patch does not apply"; exit 1; }
 git apply "$D/patch.diff"
 demo >/tmp/confirm_patched_$$.log 2>&1; PATCHED=$?
+# the demonstration is not part of the suite (a hanging demo would only disturb it)
+[ -n "${T:-}" ] && rm -f "$WT/tests/$T.rs"
 BASE=$(/verif/tools/baseline.sh "$WT" 2>&1 | tail -1)
 git checkout -q -- .
 rm -f /tmp/confirm_clean_$$.log /tmp/confirm_patched_$$.log
